@@ -102,6 +102,7 @@ SITES = {
     'any_next': r'\)\s*\.\s*any\s*\(',
     'format_opaque': r'(?<![\w:])format!\s*\(',
     'opt_map_ctor': r'\.\s*map\s*\(\s*[A-Z]\w*(?:::\w+)+\s*\)',
+    'and_then': r'\.\s*and_then\s*\(',
 }
 
 
@@ -183,6 +184,130 @@ def for_indexed(text, k, by_ref, adapter):
            % (expr, ('.' + adapter + '()') if adapter else '', pat, '&' if by_ref else '', body))
     note = 'for_indexed #%d: `for %s in %s`' % (k, pat, rs.norm_ws(re.sub('\x01T?\\d+\x01', '', expr)))
     return text[:s] + new + text[body_close + 1:], note
+
+
+TAG = '\x01T?\\d+\x01'
+
+
+def let_init(text, var, newexpr):
+    """`let VAR = INIT;`  ==>  `let VAR = NEWEXPR;`: the initializer (an iterator chain Verus cannot ingest) is replaced by a call
+    of a shim whose contract is an ASSUMPTION stated in the unit; the statement is otherwise unchanged."""
+    m = rs.mask(text)
+    hits = list(rs.find_code(text, m, r'\blet\s+(?:mut\s+)?' + re.escape(var) + r'\b[^=;]*=', 0, len(text)))
+    if not hits:
+        from vunit import Undecided
+        raise Undecided('T4 let_init: no `let %s = ..`' % var)
+    s, e, mm = hits[0]
+    j = e
+    d = 0
+    while j < len(text):
+        if m[j] == rs.CODE:
+            c = text[j]
+            if c in '([{':
+                j = rs.match_close(text, m, j) + 1
+                continue
+            if c == ';':
+                break
+        j += 1
+    init = text[e:j]
+    clean = rs.norm_ws(re.sub(TAG, '', init))
+    return text[:e] + ' ' + newexpr + text[j:], 'let_init: `let %s = %s` ==> `%s` (assumed contract)' % (var, clean[:160], newexpr)
+
+
+def const_array(text):
+    """`const N: &[T] = &[e1, .., en];`  ==>  `const N: [T; n] = [e1, .., en];` (Verus has no exec array-to-slice coercion in a const);
+    n is counted from the initializer, so dropping or adding an element stays visible to every contract that mentions N."""
+    m = rs.mask(text)
+    mm = re.search(r'const\s+(\w+)\s*:\s*&\s*(?:\'static\s+)?\[([^\]]+)\]\s*=\s*&\s*\[', text)
+    if not mm:
+        from vunit import Undecided
+        raise Undecided('T4 const_array: not a `const N: &[T] = &[..]` item')
+    ob = mm.end() - 1
+    cb = rs.match_close(text, m, ob)
+    inner = text[ob + 1:cb]
+    n = 0
+    d = 0
+    cur = ''
+    for i_, c_ in enumerate(inner):
+        if m[ob + 1 + i_] != rs.CODE:
+            continue
+        if c_ in '([{':
+            d += 1
+        elif c_ in ')]}':
+            d -= 1
+        if c_ == ',' and d == 0:
+            if re.sub(TAG, '', cur).strip():
+                n += 1
+            cur = ''
+        else:
+            cur += c_
+    if re.sub(TAG, '', cur).strip():
+        n += 1
+    vis = ''
+    new = 'const %s: [%s; %d] = [%s]' % (mm.group(1), mm.group(2).strip(), n, inner)
+    return text[:mm.start()] + new + text[cb + 1:], 'const_array: `const %s: &[%s]` with %d elements kept as an array' % (mm.group(1), mm.group(2).strip(), n)
+
+
+def _stmt_start(text, m, pos):
+    """start of the statement that contains position `pos`: scan backwards over code, skipping balanced groups, up to the
+    previous `;`, `{` or `}` that is not inside a group closed before `pos`"""
+    j = pos - 1
+    while j >= 0:
+        if m[j] != rs.CODE:
+            j -= 1
+            continue
+        c = text[j]
+        if c in ')]':
+            d = 0
+            while j >= 0:
+                if m[j] == rs.CODE:
+                    if text[j] in ')]}':
+                        d += 1
+                    elif text[j] in '([{':
+                        d -= 1
+                        if d == 0:
+                            break
+                j -= 1
+            j -= 1
+            continue
+        if c in ';{}':
+            return j + 1
+        j -= 1
+    return 0
+
+
+def closure_contract(text, k, name, label, params, spec):
+    """k-th closure literal passed as a call argument:  `CALL(.., |p, q| B, ..)`  ==>
+    `let NAME = |PARAMS| -> (__t4_r: bool) ensures //#post:LABEL SPEC { B }; CALL(.., NAME, ..)`.
+    The closure is bound to a name before the statement that uses it (creating a closure has no effect) and given a
+    contract: typed parameters PARAMS and postcondition SPEC come from the template, and Verus checks SPEC against the
+    closure's real body B. The callee's contract can then speak about its calls of the closure."""
+    m = rs.mask(text)
+    hits = []
+    for s_, e_, mm in rs.find_code(text, m, r'[(,](?:\s|' + TAG + r'|//[^\n]*\n)*(?:move\s+)?\|', 0, len(text)):
+        hits.append(e_ - 1)
+    if len(hits) <= k:
+        from vunit import Undecided
+        raise Undecided('T4 closure_contract #%d not found' % k)
+    bar = hits[k]
+    bar2 = text.index('|', bar + 1)
+    orig_params = rs.norm_ws(text[bar + 1:bar2])
+    j = bar2 + 1
+    while j < len(text):
+        if m[j] == rs.CODE:
+            c = text[j]
+            if c in '([{':
+                j = rs.match_close(text, m, j) + 1
+                continue
+            if c in ',)':
+                break
+        j += 1
+    body = text[bar2 + 1:j]
+    st = _stmt_start(text, m, bar)
+    closure = '|%s| -> (__t4_r: bool)\n    ensures\n        //#post:%s\n        %s\n{ %s }' % (params, label, spec, body.strip())
+    new = text[:st] + '\nlet %s = %s;' % (name, closure) + text[st:bar] + name + text[j:]
+    return new, 'closure_contract #%d: closure |%s| bound to `%s` before its call, parameters typed |%s|, contract `%s`' % (
+        k, orig_params, name, params, spec[:140])
 
 
 def split_or_guard(text):
@@ -339,6 +464,8 @@ def apply(text, args):
                '%s__t4_hit }') % (recv.strip(), pat, stop_if, '!' if kind == 'iter_all' else '')
     elif kind == 'is_some_and':
         new = '(match %s { Some(%s) => %s, None => false })' % (recv.strip(), pat, body)
+    elif kind == 'and_then':
+        new = '(match %s { Some(%s) => %s, None => None })' % (recv.strip(), pat, body)
     elif kind == 'is_ok_and':
         new = '(match %s { Ok(%s) => %s, Err(_) => false })' % (recv.strip(), pat, body)
     elif kind == 'is_none_or':
